@@ -1536,7 +1536,7 @@ var hrLogs = []string{
 }
 var hrMetrics = []string{"metric:transition:LEADER", "metric:transition:FOLLOWER", "metric:transition:STOPPED", "metric:leaderdur", "metric:isleader:0", "metric:isleader:1"}
 var hrRaces = []string{"stop", "stopdel", "stopnowait", "stopshort", "start", "restart", "ordemote", "validate", "forge", "outdel", "outexpire", "connD", "connR", "connC"}
-var hrBases = []string{"multiterm", "connection", "lifecycle", "benign"}
+var hrBases = []string{"multiterm", "connection", "lifecycle", "benign", "priorace", "hostile", "health2"}
 
 func genHoldRace(r rng, k int) *Spec {
 	base := hrBases[k%len(hrBases)]
